@@ -223,7 +223,7 @@ fn gen_stage(rng: &mut Rng, cur: &Cursor, sw: &Swarm, cfg: &GenCfg) -> Option<St
         return Some(Stage::MapId);
     }
     if cfg.mix == Mix::Sinks && !(cur.res && cur.ty == Ty::Trk) && rng.chance(1, 4) {
-        return Some(Stage::Loose { m: 2 + rng.below(2) });
+        return Some(Stage::Loose { m: *rng.pick(&[0usize, 2, 3]) });
     }
     if cur.res {
         return Some(match rng.below(6) {
@@ -521,7 +521,7 @@ pub fn gen_pipe(rng: &mut Rng, cfg: &GenCfg) -> Pipe {
             } else if sinks && roll < 90 {
                 // sinks mix: keep the pipeline thin
                 match rng.below(6) {
-                    3 if !(cur.res && cur.ty == Ty::Trk) => Op::Wrap(Stage::Loose { m: 2 + rng.below(2) }),
+                    3 if !(cur.res && cur.ty == Ty::Trk) => Op::Wrap(Stage::Loose { m: *rng.pick(&[0usize, 2, 3]) }),
                     4 => Op::Wrap(Stage::Scan),
                     5 => Op::Wrap(Stage::ToTrust),
                     0 => Op::Wrap(Stage::MapId),
